@@ -277,6 +277,9 @@ pub fn check(c: &Case, stats: &mut Stats) -> CheckResult {
     if c.defaults {
         stats.label("build_with_defaults");
     }
+    if c.ann.iter().any(|a| a.name.len() > 255) {
+        stats.label("record-name-longer-than-255-bytes");
+    }
     let failed_recs: BTreeSet<(u8, u32)> = c.ann.iter().filter(|a| a.term.is_some_and(|t| !present.contains(&t))).map(|a| (a.kind, a.rec)).collect();
     let reused = c.ann.iter().any(|a| a.term.is_some_and(|t| present.contains(&t)) && failed_recs.contains(&(a.kind, a.rec)));
     let only_failed = failed_recs.iter().any(|(k, r)| !model.direct[*k as usize].contains_key(r));
@@ -295,11 +298,12 @@ pub fn check(c: &Case, stats: &mut Stats) -> CheckResult {
 fn strategy(tier: Tier) -> BoxedStrategy<Case> {
     let max = if tier == Tier::Quick { 12 } else { 30 };
     (
-        vec((any::<u32>(), name_strategy(NameMode::Plain)), 1..=max),
+        // (names of any length: one in six comes from the pool of long / multi-byte / control-character names)
+        vec((any::<u32>(), prop_oneof![5 => name_strategy(NameMode::Plain), 1 => name_strategy(NameMode::Rich)]), 1..=max),
         0u8..3,
         vec((any::<u16>(), any::<u16>(), 0u8..10, any::<u32>()), 0..30),
         vec((0u8..3, 0u8..6, any::<u16>(), 0u8..10, any::<u32>()), 0..30),
-        vec(name_strategy(NameMode::Plain), 6),
+        vec(prop_oneof![5 => name_strategy(NameMode::Plain), 1 => name_strategy(NameMode::Rich)], 6),
         ((any::<u16>(), any::<u8>(), any::<u8>()), 0u8..4, any::<bool>(), vec(any::<u16>(), 0..3), any::<u16>()),
     )
         .prop_map(|(raw_terms, id_mode, raw_parents, raw_ann, rec_names, (version, version_at, defaults, dups, dup_sel))| {
@@ -467,7 +471,7 @@ impl Property for C15 {
         "C15"
     }
     fn rule(&self) -> String {
-        "Generated call histories in the order the Builder typestates allow: new_term* (duplicates, ids dense / sparse / borders) -> add_parent* over present and absent ids (present pairs keep the graph acyclic; absent ids are neighbours, far values, the borders 0 / 1 / 9_999_999, values >= 10^7 and near u32::MAX, and aliases of present ids under power-of-two masks / decimal moduli such as id + k*2^24; one history in eight closes with add_parent(x, x) or with the reverse of an accepted link or chain of two links: such a cycle-closing call is accepted on the unchanged tree, where the history then ends, and must be without effect if it is rejected) -> add_gene/add_*_disease and annotate_* over present and absent terms (failing calls carry a different record name) -> calculate_information_content -> build_minimal / build_with_defaults, set_hpo_version in a generated typestate; 20-50 % of the calls fail by construction. Deterministic histories in their own processes: more than 65 535 new_term calls; chains of 300 (thorough 3 000) terms with ids ascending / descending with depth and accepted and rejected annotate_* calls at many depths. Stateful oracle: an interpreter of the history over plain sets predicts every Ok/Err; the built ontology is walked through the complete read API under catch_unwind (every handed-out id must resolve); its snapshot must equal the reference model of the successful calls AND the snapshot of the ontology built from the successful calls alone. evaluations = Builder calls. Non-trivial = >=1 failing add_parent with a present parent, >=1 failing annotate_*, and a later successful annotate on the same record; distinct by hash of the history.".into()
+        "Generated call histories in the order the Builder typestates allow: new_term* (duplicates, ids dense / sparse / borders) -> add_parent* over present and absent ids (present pairs keep the graph acyclic; absent ids are neighbours, far values, the borders 0 / 1 / 9_999_999, values >= 10^7 and near u32::MAX, and aliases of present ids under power-of-two masks / decimal moduli such as id + k*2^24; one history in eight closes with add_parent(x, x) or with the reverse of an accepted link or chain of two links: such a cycle-closing call is accepted on the unchanged tree, where the history then ends, and must be without effect if it is rejected) -> add_gene/add_*_disease and annotate_* over present and absent terms (failing calls carry a different record name; names of any length, some longer than the 255 bytes the binary format stores) -> calculate_information_content -> build_minimal / build_with_defaults, set_hpo_version in a generated typestate; 20-50 % of the calls fail by construction. Deterministic histories in their own processes: more than 65 535 new_term calls; chains of 300 (thorough 3 000) terms with ids ascending / descending with depth and accepted and rejected annotate_* calls at many depths. Stateful oracle: an interpreter of the history over plain sets predicts every Ok/Err; the built ontology is walked through the complete read API under catch_unwind (every handed-out id must resolve); its snapshot must equal the reference model of the successful calls AND the snapshot of the ontology built from the successful calls alone. evaluations = Builder calls. Non-trivial = >=1 failing add_parent with a present parent, >=1 failing annotate_*, and a later successful annotate on the same record; distinct by hash of the history.".into()
     }
     fn assumptions(&self) -> Vec<String> {
         vec![
@@ -482,7 +486,7 @@ impl Property for C15 {
         }
     }
     fn required_labels(&self, _tier: Tier) -> Vec<&'static str> {
-        vec!["nontrivial", "failing-add_parent(present parent, absent child)", "failing-add_parent(absent parent, present child)", "failing-annotate", "duplicate-new_term", "absent-id-0", "build_with_defaults", "record-mentioned-only-by-failing-calls", "absent-id-equal-to-a-present-id-mod-2^24", "bulk>65535-terms", "add_parent(x,x)-accepted:history-ends", "cycle-closing-add_parent-accepted:history-ends", "chain>255-links"]
+        vec!["nontrivial", "failing-add_parent(present parent, absent child)", "failing-add_parent(absent parent, present child)", "failing-annotate", "duplicate-new_term", "absent-id-0", "build_with_defaults", "record-mentioned-only-by-failing-calls", "absent-id-equal-to-a-present-id-mod-2^24", "bulk>65535-terms", "add_parent(x,x)-accepted:history-ends", "cycle-closing-add_parent-accepted:history-ends", "chain>255-links", "record-name-longer-than-255-bytes"]
     }
     fn run_generated(&self, tier: Tier, seed: u64, n: u64, stats: &mut Stats) -> Option<(Value, Failure)> {
         run_typed(strategy(tier), seed, n, stats, check)
